@@ -213,6 +213,8 @@ def run_variant(args):
     d = tempfile.mkdtemp(prefix="eqfuzz.")
     try:
         subprocess.run("git -C /repo archive HEAD | tar -x -C %s" % d, shell=True, check=True)
+        if BASE_PATCH:
+            subprocess.run("cd %s && git init -q . && git apply %s" % (d, BASE_PATCH), shell=True, check=True)
         open(os.path.join(d, fname), "w").write(new_text)
         tests = None
         if with_tests:
@@ -234,7 +236,16 @@ def run_variant(args):
         shutil.rmtree(d, ignore_errors=True)
 
 
+BASE_PATCH = None        # --base PATCH: rewrite the tree obtained by applying PATCH (a behaviour-preserving twin) to /repo HEAD
+
+
 def main():
+    global BASE_PATCH
+    src_root = "/repo"
+    if "--base" in sys.argv:
+        BASE_PATCH = os.path.abspath(sys.argv[sys.argv.index("--base") + 1])
+        src_root = tempfile.mkdtemp(prefix="eqbase.")
+        subprocess.run("git -C /repo archive HEAD | tar -x -C %s && cd %s && git init -q . && git apply %s" % (src_root, src_root, BASE_PATCH), shell=True, check=True)
     with_tests = "--tests" in sys.argv
     only = sys.argv[sys.argv.index("--only") + 1] if "--only" in sys.argv else None
     mx = int(sys.argv[sys.argv.index("--max") + 1]) if "--max" in sys.argv else None
@@ -242,7 +253,7 @@ def main():
     for fn in FILES:
         if only and fn != only:
             continue
-        for v in variants(os.path.join("/repo", fn)):
+        for v in variants(os.path.join(src_root, fn)):
             if v is not None:
                 jobs.append((fn, v[0], v[1], v[2], with_tests))
     if mx:
